@@ -4,16 +4,14 @@ open Lean Stockpyl Stockpyl.RQ
 
 namespace Driver.RQ
 
-/-- `G` is given as a table of values for `y = lo, lo+1, …`; outside the table it is extended by a large value. -/
-def tableFn (lo : Int) (vals : List Rat) : Int → Rat := fun y =>
-  if y < lo then 1000000000 else vals.getD (y - lo).toNat 1000000000
-
 def handlers : List (String × Handler) := [
   ("rqcost", fun j => do
     let G := tableFn (← intOf (← field j "lo")) (← listOf ratOf (← field j "G"))
     pure <| jRat (cost G (← ratOf (← field j "Klam")) (← intOf (← field j "r")) (← natOf (← field j "Q")))),
   ("fz", fun j => do
-    let G := tableFn (← intOf (← field j "lo")) (← listOf ratOf (← field j "G"))
+    let lo ← intOf (← field j "lo")
+    let vals ← listOf ratOf (← field j "G")
+    let G := tableFn lo vals
     let cdf ← listOf ratOf (← field j "cdf")
     let alpha ← ratOf (← field j "alpha")
     match firstReach alpha cdf 0 with
@@ -21,7 +19,8 @@ def handlers : List (String × Handler) := [
     | some S =>
       pure <| match fz G (← ratOf (← field j "Klam")) (S : Int) 2000 with
         | none => jObj [("error", .str "fuel")]
-        | some s => jObj [("S", jNat S), ("r", jInt s.r), ("Q", jNat s.Q), ("g", jRat s.g)])
+        | some s => jObj [("S", jNat S), ("r", jInt s.r), ("Q", jNat s.Q), ("g", jRat s.g),
+                          ("unimodal", jBool (tableUnimodalb lo vals (S : Int)))])
 ]
 
 end Driver.RQ
